@@ -2,7 +2,7 @@
 from vlib import run_pair
 
 PID = "C01"
-MODEL_VOS = ["model/TcpStream.vo", "model/LowEntropy.vo"]
+MODEL_VOS = ["model/TcpStream.vo", "model/LowEntropy.vo", "model/Wire.vo", "model/TcpStreamWire.vo"]
 ASSUMPTIONS = [
     "AEAD correctness (open n (seal n p) = Some p, |seal n p| = |p| + 16) is a premise of the round-trip and integrity theorems; INT-CTXT (only boxes sealed by the sender open, under their own nonce) is a premise of the tamper theorem only",
     "the byte layout of the metadata and the low entropy codec enter the general theorems as functions with a round-trip premise; the correspondence run executes the concrete meta_parse_c and the LowEntropy model on real bytes",
